@@ -160,8 +160,14 @@ func (t *tr) callNamed(pn, key string, recv *val, ce *ast.CallExpr) callRes {
 			coq += " " + par(t.valueOf(argv[i]))
 		}
 	}
+	if sm.inplace {
+		t.fail("%s.%s writes the integers behind its receiver's fields in place: calls of it are not modelled", pn, key)
+	}
 	for i := range sm.writes {
 		if i != sm.retAlias && i != sm.resParam {
+			if a := argv[i]; a.o != nil && a.o.origin == oLocal && a.o.hint == "" && a.o.owner == nil {
+				continue // a fresh temporary (NewPoint().M(..)): the write cannot be observed
+			}
 			t.fail("%s.%s writes parameter %s whose final value is not part of its result", pn, key, sm.params[i].name)
 		}
 	}
